@@ -87,6 +87,24 @@ def _explore(out, tier, seed, facts, replay):
                                       % (k, k - 1, len(a[0]), str(a[0])[:80], k, len(b[0]), str(b[0])[:80], datagen.AXES[ax]),
                                       {"dataset": ds, "request": [["obs", "fcst"], k, ax, 0]})
                         break
+        # (1c) a request for the whole arrays (axis "all", as the map and time-series outputs make) for one input must not change
+        # what later requests give: the observations asked alone afterwards are those of a fresh dataset, for every input
+        dall = datagen.impl_data(ds)
+        if not isinstance(dall, tuple) and ninp >= 1:
+            import verif.axis
+            try:
+                dall.get_scores([datagen.field_obj("obs"), datagen.field_obj("fcst")], 0, verif.axis.All(), 0)
+                after = [datagen.impl_request(dall, (["obs"], k, 3, 0)) for k in range(ninp)]
+                fresh = [datagen.impl_request(ds, (["obs"], k, 3, 0)) for k in range(ninp)]
+                nf += 2 * ninp
+                for k in range(ninp):
+                    same = (after[k] == fresh[k]) if (isinstance(after[k], tuple) or isinstance(fresh[k], tuple)) else datatie.compare_cols(after[k], fresh[k])
+                    if not same:
+                        out.violation("whole-array-request-changes-cases", "after asking obs+fcst of input 0 along axis 'all' on the same dataset object, the observations of input %d are %s; "
+                                      "a fresh dataset gives %s" % (k, str(after[k])[:90], str(fresh[k])[:90]), {"dataset": ds, "input": k})
+                        break
+            except (datagen.ImplExit, SystemExit):
+                pass
         # (2) an input lacking observations is scored against those of the first input that has them
         lacking = [k for k in range(ninp) if "obs" not in ds["inputs"][k]["fields"]]
         if lacking and "obs_range" not in ds["cfg"] and "clim" not in ds["cfg"]:
